@@ -298,6 +298,12 @@ def apply_rewrites(src, mask, it, ed, stats, spec_entry):
     for m in re.finditer(r'&_\s*=>', body):
         if mask[lo + m.start()] == ord('c'):
             ed.replace(lo + m.start(), lo + m.start() + 1, ''); stats['R5_refpat'] += 1
+    # R1: `(E.execute)(a, b)` => `instruction_execute(E, a, b)` (Verus has no calls through Box<dyn FnMut>);
+    #     the wrapper (spec/interpreter.vspec, ghost of mod instructions) has the original expression as its body.
+    for m in re.finditer(r'\(\s*([A-Za-z_][A-Za-z0-9_]*)\.execute\s*\)\s*\(', body):
+        if mask[lo + m.start()] != ord('c'): continue
+        ed.replace(lo + m.start(), lo + m.end(), 'crate::push::instructions::instruction_execute(%s, ' % m.group(1))
+        stats['R1_call_wrap'] += 1
     # R3: `for PAT in EXPR { BODY }` whose body contains `continue` => the reference desugaring
     #     { let mut it = IntoIterator::into_iter(EXPR); loop { match it.next() { None => break, Some(PAT) => { BODY } } } }
     loops = find_loops(src, mask, lo + 1, hi - 1)
@@ -474,6 +480,26 @@ def assemble(repo, spec, rows=None, canary=None, opts=None):
                         ed.insert(it['body_start'] + 1, '\n' + t, prio=0)
                     elif w == 'tail':
                         ed.insert(tail_pos(src, mask, it['body_start'], it['end'] - 1), t + indent + '    ', prio=0)
+                    elif w.startswith('before_call'):
+                        # before the statement containing the k-th call of a function (keyed by callee name + ordinal)
+                        m = re.match(r'before_call\s+(\w+)\s+(\d+)$', w)
+                        if not m: raise ToolError('bad proof position %r for %s' % (w, path))
+                        calls = [x.start() + it['body_start'] for x in re.finditer(r'\b%s\s*\(' % re.escape(m.group(1)), src[it['body_start']:it['end']])
+                                 if mask[x.start() + it['body_start']] == ord('c')]
+                        k = int(m.group(2))
+                        if k >= len(calls):
+                            raise ToolError('lost anchor: %s has no call #%d of %s' % (path, k, m.group(1)))
+                        i = calls[k] - 1; d = 0
+                        while i > it['body_start']:
+                            if mask[i] == ord('c'):
+                                ch = src[i]
+                                if ch in ')]': d += 1
+                                elif ch in '([':
+                                    d -= 1
+                                elif d == 0 and ch in ';{}':
+                                    break
+                            i -= 1
+                        ed.insert(i + 1, '\n' + t, prio=0)
                     else:
                         m = re.match(r'loop\s+(\d+)\s+(start|end)$', w)
                         if not m: raise ToolError('bad proof position %r for %s' % (w, path))
@@ -572,7 +598,7 @@ def assemble(repo, spec, rows=None, canary=None, opts=None):
             text += '\n'; lm.append(None)
         emit('pub mod %s {\n' % mod)
         emit('#[allow(unused_imports)] use vstd::prelude::*;\n#[allow(unused_imports)] use crate::spec::*;\n')
-        emit('broadcast use {crate::spec::group_float_total, crate::tstd::group_tstd};\n')
+        emit('broadcast use {crate::spec::group_float_total, crate::tstd::group_tstd, crate::spec::group_clone, vstd::std_specs::hash::group_hash_axioms};\n')
         if uses_rand:
             emit('#[allow(unused_imports)] use crate::rand_stub as rand;\n')
         emit(text, lm, mod)
@@ -602,6 +628,7 @@ HEADER = '''// GENERATED by /verif/tools/gen.py from /repo/src/push/*.rs -- do n
 #![feature(allocator_api)]
 use vstd::prelude::*;
 verus! {
+global size_of usize == 8;
 '''
 
 if __name__ == '__main__':
